@@ -46,6 +46,8 @@ func main() {
 		cmdRun(os.Args[2:])
 	case "replay":
 		cmdReplay(os.Args[2:])
+	case "selftest":
+		cmdSelftest(os.Args[2:])
 	case "build":
 		if len(os.Args) < 3 {
 			die(2, "usage: simcheck build DIR")
@@ -76,6 +78,8 @@ type job struct {
 	NoShrink  bool   `json:"no_shrink"`
 	ShrinkS   int    `json:"shrink_s"`
 	Only      []int  `json:"only"`
+	Known     []string `json:"known"` // signature globs of listed known findings: counted, not shrunk
+	HashOut   string   `json:"hash_out"`
 }
 
 type violationRec struct {
@@ -119,6 +123,7 @@ type knownFinding struct {
 	What      string `json:"what"`
 	Status    string `json:"status"` // "open" (suppresses, prints KNOWN-FINDING) or "fixed" (suppresses nothing)
 	Commit    string `json:"commit,omitempty"`
+	ID        string `json:"id,omitempty"`
 }
 
 func loadKnown() []knownFinding {
@@ -142,15 +147,33 @@ func matchKnown(known []knownFinding, prop, sig string) *knownFinding {
 		if k.Property != prop || k.Status != "open" {
 			continue
 		}
-		if k.Signature == sig {
-			return k
-		}
-		if strings.HasSuffix(k.Signature, "*") && strings.HasPrefix(sig, strings.TrimSuffix(k.Signature, "*")) {
+		if globMatch(k.Signature, sig) {
 			return k
 		}
 	}
 
 	return nil
+}
+
+// globMatch matches s against a pattern in which '*' stands for any run of characters.
+func globMatch(pat, s string) bool {
+	parts := strings.Split(pat, "*")
+	if len(parts) == 1 {
+		return pat == s
+	}
+	if !strings.HasPrefix(s, parts[0]) {
+		return false
+	}
+	s = s[len(parts[0]):]
+	for i := 1; i < len(parts)-1; i++ {
+		j := strings.Index(s, parts[i])
+		if j < 0 {
+			return false
+		}
+		s = s[j+len(parts[i]):]
+	}
+
+	return strings.HasSuffix(s, parts[len(parts)-1])
 }
 
 func parseFlags(args []string) (pos []string, flags map[string]string) {
@@ -270,6 +293,12 @@ func cmdRun(args []string) {
 		buildS, bres.Files, bres.Stats.Locks, bres.Stats.Unlocks, bres.Stats.Yields, bres.Stats.GoBodies)
 
 	replayDir := filepath.Join(verifDir, "replays")
+	var knownPats []string
+	for _, k := range loadKnown() {
+		if k.Property == prop && k.Status == "open" {
+			knownPats = append(knownPats, k.Signature)
+		}
+	}
 	var wg sync.WaitGroup
 	outs := make([]*workerOut, workers)
 	errs := make([]string, workers)
@@ -279,7 +308,7 @@ func cmdRun(args []string) {
 			defer wg.Done()
 			j := job{Mode: "run", Property: prop, Tier: tier, Seed: seed, Worker: w, Workers: workers, BudgetS: budget,
 				Out: filepath.Join(scratch, fmt.Sprintf("w%d.json", w)), ReplayDir: replayDir, MaxRuns: maxRuns, LogDir: fl["log-dir"],
-				NoShrink: fl["no-shrink"] == "true", Only: only}
+				NoShrink: fl["no-shrink"] == "true", Only: only, Known: knownPats}
 			jb, _ := json.Marshal(j)
 			jp := filepath.Join(scratch, fmt.Sprintf("job%d.json", w))
 			_ = os.WriteFile(jp, jb, 0o644)
@@ -379,7 +408,7 @@ func cmdRun(args []string) {
 	var fresh []violationRec
 	for _, v := range agg.Violations {
 		if k := matchKnown(known, prop, v.Signature); k != nil {
-			knownHit[k.Signature+"\x00"+k.What]++
+			knownHit[k.ID+" "+k.Signature+"\x00"+k.What]++
 
 			continue
 		}
@@ -517,4 +546,102 @@ func cmdReplay(args []string) {
 		os.Exit(1)
 	}
 	fmt.Printf("replay of %s did not reproduce (expected %q, got %q %q)\n", file, res.Expected, res.Signature, res.Violation)
+}
+
+// cmdSelftest proves determinism: the same run indices are executed in
+// separate processes under different worker counts and GOMAXPROCS settings and
+// the per-run trace and schedule hashes must be identical (DESIGN.md §9).
+func cmdSelftest(args []string) {
+	pos, fl := parseFlags(args)
+	if len(pos) < 1 {
+		die(2, "usage: simcheck selftest PROPERTY [--runs N] [--tier T]")
+	}
+	prop := pos[0]
+	tier := fl["tier"]
+	if tier == "" {
+		tier = "quick"
+	}
+	runs := 200
+	if r := fl["runs"]; r != "" {
+		runs, _ = strconv.Atoi(r)
+	}
+	from := 0
+	if r := fl["from"]; r != "" {
+		from, _ = strconv.Atoi(r)
+	}
+	scratch, err := os.MkdirTemp("", "verif-selftest-")
+	if err != nil {
+		die(2, "mktemp: %v", err)
+	}
+	defer os.RemoveAll(scratch)
+	bres, err := build.Build(scratch, false)
+	if err != nil {
+		os.RemoveAll(scratch)
+		die(2, "BUILD-TROUBLE: %v", err)
+	}
+	var only []int
+	for i := 0; i < runs; i++ {
+		only = append(only, from+i)
+	}
+	type cfg struct {
+		workers int
+		gmp     string
+	}
+	cfgs := []cfg{{1, "1"}, {4, "4"}, {16, "16"}, {7, "2"}}
+	results := make([]map[int]string, len(cfgs))
+	for ci, c := range cfgs {
+		results[ci] = map[int]string{}
+		var wg sync.WaitGroup
+		var mu sync.Mutex
+		for w := 0; w < c.workers; w++ {
+			wg.Add(1)
+			go func(w int) {
+				defer wg.Done()
+				j := job{Mode: "run", Property: prop, Tier: tier, Seed: 20260925, Worker: w, Workers: c.workers, Only: only, NoShrink: true,
+					Out: filepath.Join(scratch, fmt.Sprintf("st%d-w%d.json", ci, w)), HashOut: filepath.Join(scratch, fmt.Sprintf("st%d-w%d.hash", ci, w)),
+					ReplayDir: filepath.Join(scratch, "replays")}
+				jb, _ := json.Marshal(j)
+				jp := filepath.Join(scratch, fmt.Sprintf("stjob%d-%d.json", ci, w))
+				_ = os.WriteFile(jp, jb, 0o644)
+				cmd := exec.Command(bres.Binary, "-test.run", "^TestWorker$", "-test.timeout", "1h", "-test.count", "1")
+				cmd.Env = append(os.Environ(), "SIM_JOB="+jp, "GODEBUG=asyncpreemptoff=1", "GOMAXPROCS="+c.gmp)
+				cmd.Dir = scratch
+				if out, err := cmd.CombinedOutput(); err != nil {
+					fmt.Fprintf(os.Stderr, "selftest worker failed: %v\n%s\n", err, out)
+				}
+				b, _ := os.ReadFile(j.HashOut)
+				mu.Lock()
+				for _, l := range strings.Split(strings.TrimSpace(string(b)), "\n") {
+					f := strings.SplitN(l, " ", 2)
+					if len(f) == 2 {
+						i, _ := strconv.Atoi(f[0])
+						results[ci][i] = strings.TrimSpace(f[1])
+					}
+				}
+				mu.Unlock()
+			}(w)
+		}
+		wg.Wait()
+	}
+	bad := 0
+	for _, i := range only {
+		ref, ok := results[0][i]
+		if !ok {
+			bad++
+			fmt.Printf("selftest: run %d missing in reference\n", i)
+
+			continue
+		}
+		for ci := 1; ci < len(cfgs); ci++ {
+			if results[ci][i] != ref {
+				bad++
+				fmt.Printf("selftest: run %d diverges: workers=1 %q vs workers=%d/GOMAXPROCS=%s %q\n", i, ref, cfgs[ci].workers, cfgs[ci].gmp, results[ci][i])
+			}
+		}
+	}
+	fmt.Printf("selftest %s: %d runs x %d process configurations, %d divergences\n", prop, len(only), len(cfgs), bad)
+	if bad > 0 {
+		os.RemoveAll(scratch)
+		os.Exit(1)
+	}
 }
